@@ -872,6 +872,8 @@ impl DbInner {
 							commit.id,
 							id,
 						);
+						#[cfg(pdb_verif)]
+						crate::verif::ev(crate::verif::EV_DEFER_COMMIT, commit.id, id);
 						queue.commits.push_back(Commit { id, bytes: 0, changeset: deferred });
 					}
 					let nothing_else = commit.changeset.btree_indexed.is_empty() &&
